@@ -120,6 +120,16 @@ def recTickCmd (ws : List String) : String :=
     | none => "bad-op"
   | _ => "bad-op"
 
+/-- `conc-events G M …`: every event issued through the synchronized event collector is persisted, and the last sample
+holds the sum (C16.counters_are_sums; C14.cumulative_kth for the totals) -/
+def concEventsCmd (ws : List String) : String :=
+  match ws with
+  | g :: m :: _ =>
+    match g.toNat?, m.toNat? with
+    | some g, some m => s!"persisted={g * m} ops={g * m}"
+    | _, _ => "bad-op"
+  | _ => "bad-op"
+
 /-- `catcher-api G M R`: R rounds of G goroutines adding M errors each through the whole adding API (C10.catcher_retains) -/
 def catcherApiCmd (ws : List String) : String :=
   match ws with
